@@ -7,6 +7,14 @@ with a logged side effect mark what was rendered; a fault plan makes the k-th ca
 Oracle: a reference evaluator written with plain Python try statements (independent of the model and of the engine):
 the result (text / returned value / exception class + message) and the ordered call log must be equal.
 Correspondence: the same programs on the Lean interpreter model.
+
+Histories (oracle only; the model has one class per name): ONE compiled template (and sub-template) rendered 2..4 times
+with other data each time -- exception classes rebound (also to a DIFFERENT class with the SAME __name__ and other bases),
+other fault plans / fault classes, other returned values, other rendered messages, unchanged repeats -- through fresh
+keyword arguments or through one caller-owned mapping object re-used by every rendering; plus loops that reach the same
+compiled try / raise several times within one rendering with another class each time.  Every rendering is compared with
+the stateless Python-semantics reference (result, class identity of a propagated exception, ordered call log): whatever
+a compiled tag remembers from an earlier evaluation must not change a later one.
 """
 import json
 
@@ -21,6 +29,80 @@ RAISE_BY_EXPR = ['E1', 'E2', 'E3', 'EM', 'KeyError', 'ValueError']
 RET_VALUES = {'r_int': 5, 'r_str': {'s': 'txt'}, 'r_none': None, 'r_true': True,
               'r_list': {'l': [1, {'s': 'a'}]}, 'r_dict': {'d': [['k', 1]]}, 'r_obj': {'o': 77, 'a': [['p', 1]]}}
 FAULT_CLASSES = ['ValueError', 'KeyError', 'E2', 'E3', 'EM', 'TypeError']
+
+
+def _mk(name, *bases):
+    return type(name, bases, {})
+
+
+# classes for the histories: key 'Name/Base'.  Several DISTINCT classes share a __name__ (as zExceptions.NotFound and
+# zope.publisher.interfaces.NotFound do, or the ConflictError of two packages) but have other bases, some are named like
+# a built-in / like a class of proggen's hierarchy without being related to it; Conflict/Stale and NotFound/BadRequest
+# are 3 deep below ValueError.  Handlers are chosen by the names of the class raised NOW and of ITS bases.
+_BAD_REQUEST = _mk('BadRequest', ValueError)
+_STALE = _mk('Stale', ValueError)
+TWINS = {
+    'Conflict/KeyError': _mk('Conflict', KeyError),
+    'Conflict/Stale': _mk('Conflict', _STALE),
+    'Conflict/E3': _mk('Conflict', proggen.E3),
+    'Conflict/Exception': _mk('Conflict', Exception),
+    'Conflict/EM': _mk('Conflict', proggen.EM),
+    'Stale/ValueError': _STALE,
+    'Stale/E1': _mk('Stale', proggen.E1),
+    'Stale/ZeroDivisionError': _mk('Stale', ZeroDivisionError),
+    'E2/ValueError': _mk('E2', ValueError),
+    'E2/Exception': _mk('E2', Exception),
+    'E3/KeyError': _mk('E3', KeyError),
+    'EM/TypeError': _mk('EM', TypeError),
+    # named like a built-in or a zExceptions class, but unrelated to it
+    'NotFound/KeyError': _mk('NotFound', KeyError),
+    'NotFound/BadRequest': _mk('NotFound', _BAD_REQUEST),
+    'NotFound/E3': _mk('NotFound', proggen.E3),
+    'NotFound/Exception': _mk('NotFound', Exception),
+    'BadRequest/ValueError': _BAD_REQUEST,
+    'BadRequest/E1': _mk('BadRequest', proggen.E1),
+    'KeyError/E1': _mk('KeyError', proggen.E1),
+    'KeyError/Exception': _mk('KeyError', Exception),
+    'ValueError/E2': _mk('ValueError', proggen.E2),
+    'TypeError/LookupError': _mk('TypeError', LookupError),
+    'RuntimeError/EM': _mk('RuntimeError', proggen.EM),
+}
+HIST_POOL = sorted(set(RAISE_BY_EXPR + FAULT_CLASSES + ['RuntimeError', 'ZeroDivisionError'])) + sorted(TWINS)
+HIST_HANDLER_NAMES = HANDLER_NAMES + ['Conflict', 'Conflict', 'Stale', 'NotFound', 'BadRequest']
+
+# LEFT OUT (a violation on the unchanged library, reported, not hidden): `<dtml-raise expr="c">` where c is a class whose
+# __name__ is also the name of a built-in or zExceptions exception (NotFound, BadRequest, KeyError, ...) does not raise
+# the computed class c but the built-in / zExceptions class of that name (DT_Raise.render passes the evaluated class
+# through zExceptions.upgradeException, which looks the class up again BY NAME).  Until that is settled such classes are
+# raised by callables only (fault plans), never through dtml-raise; classes named Conflict / Stale / E2 / E3 / EM take
+# their place in the class bindings.
+RAISE_EXPR_RENAMES_CLASS = False   # repaired in /repo (fix d09f091): such classes are generated again
+
+
+def _upgraded_by_name(key):
+    import builtins
+    import zExceptions
+    n = cls_name(key)
+    other = getattr(builtins, n, None) or getattr(zExceptions, n, None)
+    return other is not None and other is not cls_of(key)
+
+
+def cls_of(key):
+    """class key ('E2', 'NotFound/KeyError', ...) -> the Python class"""
+    return TWINS[key] if key in TWINS else proggen.CLASSES[key][0]
+
+
+def cls_name(key):
+    return key.split('/')[0]
+
+
+SAME_NAME = {}
+for _k in HIST_POOL:
+    SAME_NAME.setdefault(cls_name(_k), []).append(_k)
+# classes that may be bound to the names dtml-raise evaluates
+EXPR_POOL = [_k for _k in HIST_POOL if not (RAISE_EXPR_RENAMES_CLASS and _upgraded_by_name(_k))]
+EXPR_TWINS = [_k for _k in EXPR_POOL if _k in TWINS]
+KEY_OF = {id(cls_of(_k)): _k for _k in HIST_POOL}
 
 
 class Ret(Exception):
@@ -71,12 +153,16 @@ def jstr(v):
 class Ref:
     """reference evaluator: Python semantics written with Python's own try statements"""
 
-    def __init__(self, ns, subs, faults, fault_cls):
+    def __init__(self, ns, subs, faults, fault_cls, trace=None):
         self.ns, self.subs = ns, subs
         self.calls = 0
         self.log = []
         self.faults = set(faults)
-        self.fault_cls = proggen.CLASSES[fault_cls][0]
+        self.fault_cls = cls_of(fault_cls)
+        # histories: id(compiled-block description) -> classes that reached it so far (coverage bookkeeping only,
+        # never used to compute a result)
+        self.trace = trace
+        self.revisits = []
 
     def call(self, f):
         n = self.calls
@@ -165,6 +251,7 @@ class Ref:
                 raise
             except Exception as e:  # noqa
                 h = self.find(hs, type(e))
+                self.note(b, type(e), hs)
                 if h is None:
                     raise
                 return self.blocks(h, hst + [(type(e).__name__, proggen.exc_msg(e))])
@@ -186,7 +273,8 @@ class Ref:
                 if c is None:
                     c = RuntimeError
             else:
-                c = proggen.CLASSES[self.ns[e[1]]['x']][0]
+                c = cls_of(self.ns[e[1]]['x'])
+                self.note(b, c, None)
             try:
                 v = self.blocks(body, hst)
             except Ret:
@@ -196,7 +284,36 @@ class Ref:
             raise c(v)
         if k == 'ret':
             raise Ret(self.src(b[1], hst))
+        if k == 'inC':
+            # <dtml-in clsseq prefix=it>: the body once per class of the sequence, the class bound to it_item
+            saved = self.ns
+            out = ''
+            try:
+                for it in saved[b[1]]['l']:
+                    self.ns = dict(saved, it_item=it)
+                    out += self.blocks(b[2], hst)
+            finally:
+                self.ns = saved
+            return out
         raise ValueError(k)
+
+    def note(self, b, cls, hs):
+        """coverage bookkeeping of the histories: was this compiled try / raise reached before (earlier rendering or
+        earlier loop round) by ANOTHER class / another class of the SAME name / with another handler decision"""
+        if self.trace is None:
+            return
+        seen = self.trace.setdefault(id(b), [])
+        kind = 'try' if hs is not None else 'raise'
+        others = [c for c in seen if c is not cls]
+        twins = [c for c in others if c.__name__ == cls.__name__]
+        if others:
+            self.revisits.append(kind + '_other_class')
+        if twins:
+            self.revisits.append(kind + '_same_name_other_class')
+            if hs is not None and any(self.find(hs, c) != self.find(hs, cls) for c in twins):
+                self.revisits.append('try_same_name_other_handler')
+        if len(others) == len(seen):
+            seen.append(cls)
 
     @staticmethod
     def find(hs, cls):
@@ -209,9 +326,17 @@ class Ref:
 
 # --------------------------------------------------------------------------- generator
 
+SUB_CALL = ['var', ['n', 'sub0'], False, None, None]
+
+
 def mark(g):
     """a callable whose invocation shows that this point was rendered"""
     return ['call', ['n', g.r.choice(['f', 'g', 'h'])]]
+
+
+def errprobe(g):
+    """error_type / error_value must be visible inside handlers only (rendered as NOERR where they are not bound)"""
+    return ['var', ['n', g.r.choice(['error_type', 'error_value'])], False, 'NOERR', None]
 
 
 def gen_blocks(g, depth, width=2):
@@ -219,8 +344,21 @@ def gen_blocks(g, depth, width=2):
     for _ in range(g.r.randint(1, width)):
         if g.r.random() < 0.6:
             out.append(['lit', g.r.choice(['a', 'b', 'c', 'x ', '-'])])
-        out.append(gen_block(g, depth))
+        b = gen_block(g, depth)
+        out.append(b)
+        if (b[0] in ('tryX', 'tryfin', 'inC') or b == SUB_CALL) and g.r.random() < 0.4:
+            # what a try block (or a sub-template with try blocks) bound for its handler must be gone after the tag,
+            # however the handler was left (normally, by an exception, by dtml-return)
+            out.append(errprobe(g))
     return out
+
+
+def section(g, depth, width):
+    """the blocks of one section of a tag (try body, handler, else, finally); now and then the section is EMPTY: the
+    next tag follows at once (`<dtml-except KeyError><dtml-except>x</dtml-try>`, the idiom to ignore an error)"""
+    if g.r.random() < 0.12:
+        return []
+    return gen_blocks(g, depth, width)
 
 
 def gen_handlers(g, depth):
@@ -228,13 +366,14 @@ def gen_handlers(g, depth):
     hs = []
     n = r.randint(1, 3)
     for i in range(n):
-        body = gen_blocks(g, depth - 1, 1)
-        if r.random() < 0.6:
+        body = section(g, depth - 1, 1)
+        if body and r.random() < 0.6:
             body.append(['var', ['n', r.choice(['error_type', 'error_value'])], False, None, None])
         if i == n - 1 and r.random() < 0.25:
             hs.append([[''], body])
         else:
-            hs.append([r.sample(HANDLER_NAMES, r.choice([1, 1, 1, 2])), body])
+            hs.append([r.sample(HIST_HANDLER_NAMES if getattr(g, 'hist', False) else HANDLER_NAMES,
+                                r.choice([1, 1, 1, 2])), body])
     return hs
 
 
@@ -245,6 +384,8 @@ def gen_block(g, depth):
         kinds += ['try', 'try', 'try', 'tryfin', 'tryfin', 'raise', 'ret', 'cond', 'in', 'with', 'let']
         if not getattr(g, 'in_sub', False):
             kinds.append('sub')
+        if getattr(g, 'hist', False) and not getattr(g, 'in_sub', False):
+            kinds += ['inC', 'inC']
     k = r.choice(kinds)
     if k == 'lit':
         return ['lit', r.choice(['L', '!'])]
@@ -253,11 +394,12 @@ def gen_block(g, depth):
     if k == 'var':
         return ['var', ['n', r.choice(['f', 'g', 'v1', 'v2'])], False, None, None]
     if k == 'errprobe':
-        # error_type / error_value must be visible inside handlers only
-        return ['var', ['n', r.choice(['error_type', 'error_value'])], False, 'NOERR', None]
+        return errprobe(g)
     if k in ('raise0', 'raise'):
         body = [['lit', r.choice(['m1', 'msg two', ''])]] if k == 'raise0' or r.random() < 0.6 else gen_blocks(g, depth - 1, 1)
-        if r.random() < 0.6:
+        if getattr(g, 'in_loop', 0) and r.random() < 0.7:
+            return ['raise', 'exc_cls', ['name', 'it_item'], body]
+        if r.random() < (0.35 if getattr(g, 'hist', False) else 0.6):
             return ['raise', r.choice(RAISE_BY_NAME), None, body]
         return ['raise', 'exc_cls', ['name', r.choice(['cls1', 'cls2', 'cls3', 'ValueError', 'LookupError'])], body]
     if k in ('ret0', 'ret'):
@@ -266,10 +408,10 @@ def gen_block(g, depth):
         return ['ret', ['e', ['lit', r.choice([0, 9])]]]
     if k == 'try':
         hs = gen_handlers(g, depth)
-        els = gen_blocks(g, depth - 1, 1) if r.random() < 0.4 else None
-        return ['tryX', gen_blocks(g, depth - 1, 2), hs, els]
+        els = section(g, depth - 1, 1) if r.random() < 0.4 else None
+        return ['tryX', section(g, depth - 1, 2), hs, els]
     if k == 'tryfin':
-        return ['tryfin', gen_blocks(g, depth - 1, 2), gen_blocks(g, depth - 1, 1)]
+        return ['tryfin', section(g, depth - 1, 2), section(g, depth - 1, 1)]
     if k == 'cond':
         return ['cond', [[['n', r.choice(['t1', 'f0', 'f0', 'nodef'])], gen_blocks(g, depth - 1, 1)],
                          [['n', 't1'], gen_blocks(g, depth - 1, 1)]], None]
@@ -281,7 +423,19 @@ def gen_block(g, depth):
     if k == 'let':
         return ['let', [['zz', ['n', r.choice(['v1', 'f'])]]], gen_blocks(g, depth - 1, 1)]
     if k == 'sub':
-        return ['var', ['n', 'sub0'], False, None, None]
+        return list(SUB_CALL)
+    if k == 'inC':
+        # a loop over exception classes: the compiled tags of the body are evaluated once per class
+        g.in_loop = getattr(g, 'in_loop', 0) + 1
+        try:
+            if r.random() < 0.6:
+                body = [['tryX', [mark(g), ['raise', 'exc_cls', ['name', 'it_item'], [['lit', r.choice(['lm', ''])]]]],
+                         gen_handlers(g, depth), gen_blocks(g, depth - 1, 1) if r.random() < 0.3 else None]]
+            else:
+                body = gen_blocks(g, depth - 1, 2)
+        finally:
+            g.in_loop -= 1
+        return ['inC', 'clsseq', body]
     raise ValueError(k)
 
 
@@ -308,6 +462,8 @@ def expand(bs):
             out.append(['with', b[1], b[2], b[3], expand(b[4])])
         elif k == 'let':
             out.append(['let', b[1], expand(b[2])])
+        elif k == 'inC':
+            out.append(['inC', b[1], expand(b[2])])
         else:
             out.append(b)
     return out
@@ -348,6 +504,8 @@ def print_block(b):
         return '<dtml-with %s>%s</dtml-with>' % (proggen.src_attr(b[1]), print_blocks(b[4]))
     if k == 'let':
         return '<dtml-let %s>%s</dtml-let>' % (' '.join('%s=%s' % (n, s[1]) for n, s in b[1]), print_blocks(b[2]))
+    if k == 'inC':
+        return '<dtml-in %s prefix=it>%s</dtml-in>' % (b[1], print_blocks(b[2]))
     return proggen.print_block(b)
 
 
@@ -390,6 +548,25 @@ def reference(case, ns, faults, fault_cls):
     return out, ref.log
 
 
+EMPTY_SECTION = None
+
+
+def shape_counts(res, src):
+    """evidence: programs with an empty section / with an error_type probe right after a try block"""
+    global EMPTY_SECTION
+    import re
+    if EMPTY_SECTION is None:
+        EMPTY_SECTION = (re.compile(r'<dtml-except[^>]*>(?=<dtml-except|<dtml-else>|</dtml-try>)'),
+                         re.compile(r'<dtml-try>(?=<dtml-except|<dtml-finally>)|<dtml-(?:else|finally)>(?=</dtml-try>)'),
+                         re.compile(r'</dtml-try><dtml-var error_(?:type|value) missing="NOERR">'))
+    if EMPTY_SECTION[0].search(src):
+        res.count('programs_with_empty_handler')
+    if EMPTY_SECTION[1].search(src):
+        res.count('programs_with_empty_body_else_or_finally')
+    if EMPTY_SECTION[2].search(src):
+        res.count('programs_probing_error_type_right_after_a_try')
+
+
 def features(src):
     f = []
     for t in ('dtml-except', 'dtml-finally', 'dtml-else', 'dtml-raise', 'dtml-return'):
@@ -413,6 +590,8 @@ def check(res, items, have_driver):
         src = c['templates'][0]['source']
         res.nt((features(src), plan[0] != (), 'raise' in got, got.get('raise')))
         res.count('outcome=' + ('raise' if 'raise' in got else 'ok'))
+        if plan[0] == ():
+            shape_counts(res, src)
         if not same or exp_log != got_log:
             res.oracle_fail.append({'case': {'source': src, 'sub0': c['templates'][1]['source'], 'faults': list(plan[0]),
                                              'fault_cls': plan[1]},
@@ -447,28 +626,270 @@ def gen_items(r, n):
     return items
 
 
+# --------------------------------------------------------------------------- histories on ONE compiled template
+
+CLASS_SLOTS = ['cls1', 'cls2', 'cls3', 'ValueError', 'LookupError']
+OTHER_VALUES = [6, -1, {'s': 'other'}, {'s': ''}, None, False, True, {'l': [2]}, {'l': []}, {'d': [['z', 0]]},
+                {'o': 78, 'a': [['p', 2]]}, {'t': [1, {'s': 'b'}]}]
+
+
+def pick_class(r, pool=None):
+    # half of the time a class whose name is shared with another class
+    pool = EXPR_POOL if pool is None else pool
+    return r.choice([k for k in pool if k in TWINS]) if r.random() < 0.5 else r.choice(pool)
+
+
+def twin_of(r, key, pool=None):
+    """another class with the same __name__ (other bases), if there is one"""
+    pool = EXPR_POOL if pool is None else pool
+    alt = [k for k in SAME_NAME[cls_name(key)] if k != key and k in pool]
+    return r.choice(alt) if alt else key
+
+
+def gen_clsseq(r):
+    """1..3 classes to loop over; often two DISTINCT classes of one name follow each other within the same rendering"""
+    ks = [pick_class(r) for _ in range(r.randint(1, 3))]
+    if r.random() < 0.5:
+        ks.insert(r.randrange(len(ks)) + 1, twin_of(r, ks[0]))
+    return {'l': [{'x': k, 'm': ''} for k in ks]}
+
+
+def mutate_ns(r, ns):
+    """the data of the next rendering: what was changed is reported by kind"""
+    ns = dict(ns)
+    kinds = set()
+    how = r.choice(['twin', 'twin', 'twin', 'rebind', 'values', 'mixed', 'same'])
+    if how in ('twin', 'mixed'):
+        for n in CLASS_SLOTS:
+            if r.random() < 0.7:
+                ns[n] = {'x': twin_of(r, ns[n]['x']), 'm': ''}
+        if r.random() < 0.7:
+            ns['clsseq'] = {'l': [{'x': twin_of(r, c['x']), 'm': ''} if r.random() < 0.7 else c for c in ns['clsseq']['l']]}
+        kinds.add('twin')
+    if how in ('rebind', 'mixed'):
+        for n in r.sample(CLASS_SLOTS, r.randint(1, 3)):
+            ns[n] = {'x': pick_class(r), 'm': ''}
+        if r.random() < 0.5:
+            ns['clsseq'] = gen_clsseq(r)
+        kinds.add('rebind')
+    if how in ('values', 'mixed'):
+        for n in r.sample(sorted(RET_VALUES) + ['v1', 'v2', 'f', 'g', 't1', 'f0'], r.randint(1, 4)):
+            if n in ('f', 'g'):
+                ns[n] = {'f': ns[n]['f'], 'r': r.choice([{'s': 'F2'}, 4, None, {'s': ''}, {'l': [1]}])}
+            elif n in ('t1', 'f0'):
+                ns[n] = 1 - ns[n]
+            elif n in ('v1', 'v2'):
+                ns[n] = r.choice([{'s': 'uno'}, 3, {'s': ''}, 0])
+            else:
+                ns[n] = r.choice(OTHER_VALUES)
+        kinds.add('values')
+    if how == 'same':
+        kinds.add('same')
+    return ns, kinds
+
+
+def gen_history(r, depth):
+    g = G(r)
+    g.hist = True
+    ns = {'f': {'f': 1, 'r': {'s': 'F'}}, 'g': {'f': 2, 'r': 3}, 'h': {'f': 3, 'r': None},
+          'v1': {'s': 'one'}, 'v2': 2, 't1': 1, 'f0': 0,
+          'seq2': {'l': [{'o': 1, 'a': [['w', 1]]}, {'o': 2, 'a': [['w', 2]]}]}, 'seq0': {'l': []},
+          'wobj': {'o': 3, 'a': [['w', 3]]}, 'sub0': {'T': 1},
+          'clsseq': gen_clsseq(r)}
+    for n in CLASS_SLOTS:
+        ns[n] = {'x': pick_class(r), 'm': ''}
+    ns.update(RET_VALUES)
+    main = gen_blocks(g, depth, 3)
+    g.in_sub = True
+    sub = gen_blocks(g, 1, 2)
+    case = {'templates': [{'blocks': expand(main), 'source': print_blocks(main)},
+                          {'blocks': expand(sub), 'source': print_blocks(sub)}]}
+    subs = [t['blocks'] for t in case['templates']]
+    steps = []
+    prev_plan = None
+    for i in range(r.choice([2, 3, 3, 4])):
+        kinds = set()
+        if i:
+            ns, kinds = mutate_ns(r, ns)
+        ref = Ref(ns, subs, (), 'ValueError')
+        try:
+            ref.blocks(subs[0], [])
+        except Exception:  # noqa
+            pass
+        plan = ((), 'ValueError')
+        if ref.calls and r.random() < 0.65:
+            if prev_plan and prev_plan[0] and prev_plan[0][0] < ref.calls and r.random() < 0.6:
+                # the same invocation fails again, with another class of the same name
+                plan = (prev_plan[0], twin_of(r, prev_plan[1], HIST_POOL))
+                kinds.add('twin-fault')
+            else:
+                plan = ((r.randrange(ref.calls),), pick_class(r, HIST_POOL))
+        prev_plan = plan
+        steps.append({'ns': ns, 'faults': plan[0], 'fault_cls': plan[1], 'changed': sorted(kinds)})
+    return {'case': case, 'steps': steps, 'via': r.choice(['kw', 'kw', 'mapping'])}
+
+
+def hist_to_py(world, v, templates):
+    if isinstance(v, dict) and 'x' in v:
+        return cls_of(v['x'])
+    if isinstance(v, dict) and 'l' in v and v['l'] and all(isinstance(x, dict) and 'x' in x for x in v['l']):
+        return [cls_of(x['x']) for x in v['l']]
+    return proggen.to_py(world, v, templates)
+
+
+def outcome_of_exception(e):
+    return {'raise': type(e).__name__, 'msg': proggen.exc_msg(e), 'cls': KEY_OF.get(id(type(e)), type(e).__name__)}
+
+
+def run_history(h):
+    """ONE set of compiled templates, rendered once per step; returns per step (result, call log, problem or None)"""
+    from DocumentTemplate import HTML
+    world = proggen.World((), ValueError)
+    templates = [HTML(t['source']) for t in h['case']['templates']]
+    data = {}           # the caller's data: one object for the whole history, updated in place between renderings
+    prev = {}
+    out = []
+    for st in h['steps']:
+        for k, v in st['ns'].items():
+            if k not in prev or prev[k] != v:
+                data[k] = hist_to_py(world, v, templates)
+        prev = st['ns']
+        world.calls = 0
+        world.events = []
+        world.faults = set(st['faults'])
+        world.fault_cls = cls_of(st['fault_cls'])
+        before = dict(data)
+        try:
+            o = templates[0](None, data) if h['via'] == 'mapping' else templates[0](**data)
+            res = {'ok': proggen.from_py(o)}
+        except Exception as e:  # noqa
+            res = outcome_of_exception(e)
+        problem = None
+        if set(data) != set(before) or any(data[k] is not before[k] for k in before):
+            problem = 'the mapping passed by the caller was changed by the rendering: keys %r' % sorted(
+                set(data) ^ set(before) | {k for k in before if k in data and data[k] is not before[k]})
+            for k in set(data) - set(before):
+                del data[k]
+            data.update(before)
+        out.append((res, [e[1] for e in world.events if e[0] == 'call'], problem))
+    return out
+
+
+def reference_history(h):
+    subs = [t['blocks'] for t in h['case']['templates']]
+    trace = {}
+    out = []
+    for st in h['steps']:
+        ref = Ref(st['ns'], subs, st['faults'], st['fault_cls'], trace)
+        try:
+            res = {'ok': {'s': ref.blocks(subs[0], [])}}
+        except Ret as r:
+            res = {'ok': norm_json(r.v)}
+        except Exception as e:  # noqa
+            res = outcome_of_exception(e)
+        out.append((res, ref.log, ref.revisits))
+    return out
+
+
+def brief_steps(steps):
+    """replay form: the first rendering's data in full (classes as Name/Base), later renderings as what changed"""
+    def short(v):
+        if isinstance(v, dict) and 'x' in v:
+            return v['x']
+        if isinstance(v, dict) and 'l' in v and v['l'] and all(isinstance(x, dict) and 'x' in x for x in v['l']):
+            return [x['x'] for x in v['l']]
+        return v
+    out = []
+    prev = None
+    for s in steps:
+        ns = s['ns']
+        if prev is None:
+            data = {k: short(ns[k]) for k in CLASS_SLOTS + ['clsseq', 'v1', 'v2', 't1', 'f0', 'f', 'g'] + sorted(RET_VALUES)}
+        else:
+            data = {k: short(v) for k, v in ns.items() if prev[k] != v}
+        prev = ns
+        out.append({'data' if len(out) == 0 else 'data_changed': data, 'faults': list(s['faults']),
+                    'fault_cls': s['fault_cls']})
+    return out
+
+
+def check_histories(res, hists):
+    for h in hists:
+        res.count('histories')
+        res.count('histories_via_' + h['via'])
+        got = run_history(h)
+        exp = reference_history(h)
+        src = h['case']['templates'][0]['source']
+        shape_counts(res, src)
+        for i, (st, (g_res, g_log, problem), (e_res, e_log, revisits)) in enumerate(zip(h['steps'], got, exp)):
+            res.evaluations += 1
+            res.count('history_renderings')
+            if i:
+                res.count('history_rerenderings')
+                for c in st['changed']:
+                    res.count('history_step_' + c)
+            for v in set(revisits):
+                res.count('history_' + v)
+            res.nt(('hist', features(src), i > 0, tuple(st['changed']), st['faults'] != (), g_res.get('raise'),
+                    tuple(sorted(set(revisits)))))
+            same = e_res == g_res or ('raise' in e_res and 'raise' in g_res and e_res['cls'] == g_res['cls'] and
+                                      e_res['raise'] in interp.INTERNAL)
+            if same and e_log == g_log and problem is None:
+                continue
+            res.oracle_fail.append({
+                'case': {'source': src, 'sub0': h['case']['templates'][1]['source'], 'via': h['via'],
+                         'renderings_of_the_same_template_object': brief_steps(h['steps'][:i + 1]),
+                         'failing_rendering': i},
+                'what': problem or ('rendering #%d of the same compiled template: Python-semantics reference gives %r with '
+                                    'calls %r; the engine gives %r with calls %r (classes are written Name/Base: distinct '
+                                    'classes may share a name)' % (i, e_res, e_log, g_res, g_log))})
+            break       # later renderings of a template that already went wrong add nothing
+
+
+def gen_histories(r, n):
+    return [gen_history(r, r.choice([1, 2, 2, 3, 3])) for _ in range(n)]
+
+
 def run(res, tier, have_driver):
     r = common.rng('C14')
     res.rule = ('random programs: dtml-try with 1..3 handlers (single / multi-name / bare) over E1<E2<E3, EM(E1,ValueError) and '
-                'built-ins, optional else; try/finally; dtml-raise by name (incl. unknown) and by expression with literal or '
+                'built-ins, optional else; try/finally; every section (try body, handler, else, finally) now and then EMPTY; '
+                'error_type / error_value probed (missing=NOERR) anywhere and right after try blocks / sub-template calls; '
+                'dtml-raise by name (incl. unknown) and by expression with literal or '
                 'nested bodies; dtml-return of int/str/None/bool/list/dict/object/callable result; nesting <= 3 inside '
                 'if/in/with/let; sub-template by name; each program also with the k-th callable invocation raising '
                 '(ValueError/KeyError/E2/E3/EM/TypeError); non-trivial = distinct (tag features, fault?, outcome class)')
+    res.rule += ('; HISTORIES (oracle only): one compiled template + sub-template rendered 2..4 times, every rendering '
+                 'against the stateless reference (result, identity of the propagated class, call log): class bindings '
+                 'replaced by a DIFFERENT class of the SAME __name__ with other bases (Conflict x5, Stale x3, look-alikes of '
+                 'E2 / E3 / EM; NotFound x4, BadRequest x2 and look-alikes of KeyError / ValueError / TypeError / '
+                 'RuntimeError raised by callables only), arbitrary rebinding, other returned values / '
+                 'messages / conditions, unchanged repeats, the same invocation failing again with a same-named class; data '
+                 'passed as fresh keywords or as ONE caller mapping re-used (and required unchanged) across renderings; '
+                 'dtml-in loops over classes reaching the same compiled try / raise once per class within a rendering')
+    if RAISE_EXPR_RENAMES_CLASS:
+        res.partial.append('left out (violation on the unchanged library, reported): <dtml-raise expr="c"> with c a class whose '
+                           '__name__ is also a built-in / zExceptions exception name raises THAT class, not c '
+                           '(zExceptions.upgradeException looks the evaluated class up again by name)')
     items = gen_items(r, 900 if tier == 'quick' else 12000)
     runs = check(res, items, have_driver)
+    check_histories(res, gen_histories(common.rng('C14-hist'), 2500 if tier == 'quick' else 20000))
     for i in (0, len(runs) // 2, len(runs) - 1):
         c, plan, impl, m = runs[i]
         res.sample({'source': c['templates'][0]['source'][:300], 'faults': list(plan[0]), 'result': impl['result']})
     res.assumptions += ['interpreter model validated (not verified) against the real classes',
                         'reference evaluator = Python try/except/else/finally over the abstract program; handler match = name of '
                         'the class or of any class in its MRO',
-                        'messages of exceptions CPython raises itself (TypeError, AttributeError, …) are not compared']
+                        'messages of exceptions CPython raises itself (TypeError, AttributeError, …) are not compared',
+                        'histories are not run on the Lean model (its class table has one class per name); their '
+                        'expected values come from the reference evaluator alone, which keeps no state between renderings']
 
 
 def search_more(res, tier):
     r = common.rng('C14-more')
     res2 = common.Result('C14')
     check(res2, gen_items(r, 3000), False)
+    check_histories(res2, gen_histories(common.rng('C14-hist-more'), 6000))
     return res2.oracle_fail
 
 
